@@ -350,3 +350,31 @@ pub fn deep_chain_probe(depth: usize, mode: &str) -> Result<Option<(String, Stri
         format!("chain of {} multiplications on an 8 MiB stack, mode {}: exit status {:?}; stdout {:?}; stderr {:?}", depth, mode, out.status, stdout.trim(), stderr.trim().lines().last().unwrap_or("")),
     )))
 }
+
+
+/// tracking flag of every operand handle at the time each operation was built (replays the toggles of the program text)
+pub fn flags_at_use(p: &Program) -> Vec<Vec<bool>> {
+    let n = p.nodes.len();
+    let mut flags = vec![false; n];
+    let mut out: Vec<Vec<bool>> = vec![vec![]; n];
+    for (i, node) in p.nodes.iter().enumerate() {
+        match node {
+            Node::Leaf { tracked, .. } => flags[i] = *tracked,
+            Node::Op { kind, args, post, pre } => {
+                for (h, on) in pre {
+                    flags[*h] = *on;
+                }
+                out[i] = args.iter().map(|a| flags[*a]).collect();
+                let mut f = args.iter().any(|a| flags[*a]);
+                if kind.is_alias() {
+                    f = flags[args[0]];
+                }
+                if let Some(b) = post {
+                    f = *b;
+                }
+                flags[i] = f;
+            }
+        }
+    }
+    out
+}
